@@ -900,9 +900,10 @@ def _oracle_c14_manager_originated(self, model, mon, sub_since):
         st = model.state_at(conn, s_)
         if st is None:
             continue
-        if mt == C.MT_ACKNOWLEDGE and not st[3] and not (mt in st[1] or ALL in st[1]):
-            # the acknowledgement of a request, written to the requester itself: the requester is not a
-            # subscriber of it, so the statement does not demand a notice (the manager sends one: allowed)
+        if mt == C.MT_ACKNOWLEDGE and not st[3]:
+            # the acknowledgement of a request, written to the requester itself (acknowledgements are never
+            # routed to ordinary subscribers): the requester is not a subscriber of it, so the statement does not
+            # demand a notice (the manager sends one: allowed)
             optional[rnd][(mt, st[2])] += 1
             continue
         expected[rnd][(mt, st[2])] += 1
@@ -910,37 +911,29 @@ def _oracle_c14_manager_originated(self, model, mon, sub_since):
         e, o = Counter(expected.get(rnd, Counter())), Counter(observed.get(rnd, Counter()))
         if e:
             res.probes["mgr_originated_notices_expected"] += sum(e.values())
-        # exact matches first; then a module whose dynamic id could not be learnt (its own acknowledgement was
-        # lost and no logger saw a copy) matches any id
+        # matching order: exact demanded, exact allowed, then a module whose dynamic id could not be learnt (its
+        # own acknowledgement was lost and no logger saw a copy), which matches any id: demanded first, allowed last
+        opt = Counter(optional.get(rnd, Counter()))
         common = e & o
         e -= common
         o -= common
-        for (t, mid), n in list(e.items()):
-            if mid == -1:
-                for (t2, mid2), n2 in list(o.items()):
-                    if t2 == t and n > 0 and n2 > 0:
-                        k = min(n, n2)
-                        e[(t, mid)] -= k
-                        o[(t2, mid2)] -= k
-                        n -= k
+        common = o & opt
+        o -= common
+        opt -= common
+        for pool in (e, opt):
+            for (t, mid), n in list(pool.items()):
+                if mid == -1:
+                    for (t2, mid2) in list(o):
+                        n2 = o[(t2, mid2)]
+                        if t2 == t and n > 0 and n2 > 0:
+                            k = min(n, n2)
+                            pool[(t, mid)] -= k
+                            o[(t2, mid2)] -= k
+                            n -= k
         e += Counter()
         o += Counter()
-        if e == o:
-            continue
-        missing = e - o
-        opt = Counter(optional.get(rnd, Counter()))
-        extra = o - e
-        common = extra & opt
-        extra -= common
-        opt -= common
-        for (t, mid), n in list(opt.items()):
-            if mid == -1:
-                for (t2, mid2), n2 in list(extra.items()):
-                    if t2 == t and n > 0 and n2 > 0:
-                        k = min(n, n2)
-                        extra[(t2, mid2)] -= k
-                        n -= k
-        extra += Counter()
+        missing = e
+        extra = o
         if not missing and not extra:
             continue
         if missing:
